@@ -13,7 +13,7 @@ Local Open Scope Q_scope.
    0 <= x_ij <= max_multiplicity (products exact through the C12 bridges); gen_0 <= .. <= gen_(k-2);
    partition block: every element in exactly one part of every constraint, part sums as given *)
 Theorem C15_genset_rows_sound : forall (I : mgs_inst) (k : nat) (a : var -> Q), (1 <= mg_mult I)%nat ->
-  sat a (encode_mgs I k) -> mgs_sem (prod_ub I) I k a.
+  sat a (encode_mgs I k) -> mgs_sem (prod_ub I) (pi_ub I) I k a.
 Proof. exact mgs_enc_sound_code. Qed.
 Print Assumptions C15_genset_rows_sound.
 
@@ -41,6 +41,15 @@ Theorem C15_old_multiplicity_bits_refuted : exists (I : mgs_inst) (k : nat) (g :
   (forall a, ~ sat a (encode_mgs_old I k)) /\ (Z.of_nat (mg_mult I) < 2 ^ Z.of_nat (num_bits (prod_ub I)))%Z.
 Proof. exact mgs_old_multiplicity_bits_refuted. Qed.
 Print Assumptions C15_old_multiplicity_bits_refuted.
+
+(* FIXED FINDING (mgs_pi_bounded_by_total, a068bcc): with multiplicities a number may exceed the total; the old encoder
+   bounded the products by the total and admitted nothing for k = 1 on numbers [1,2], total 1, multiplicity 2,
+   which {1} generates; the encoder as it is now (pi <= max(total, numbers)) has a solution for k = 1 *)
+Theorem C15_pi_bound_old_refuted : exists (I : mgs_inst) (k : nat),
+  genset (mg_mult I) (mg_numbers I) (mg_total I) [1] /\ k = 1%nat /\
+  (exists a, sat a (encode_mgs I k)) /\ forall a, ~ sat a (encode_mgs_pi_old I k).
+Proof. exact mgs_pi_bound_old_refuted. Qed.
+Print Assumptions C15_pi_bound_old_refuted.
 
 (* __init__ as it is now (complements removed only for max_multiplicity = 1, 295fbde): removing total, zero,
    duplicates and complements loses nothing, for every max_multiplicity >= 1 *)
